@@ -46,8 +46,34 @@ def decomp_lit(d):
         return f"(DTucker {arr_lit(d['core'])} {arrs_lit(d['fs'])} {C.opt(d.get('skip'), C.nat)} {C.boolc(d.get('tr', False))})"
     if k in ("tt", "tr", "ttm"):
         return f"({ {'tt': 'DTt', 'tr': 'DTr', 'ttm': 'DTtm'}[k]} {arrs_lit(d['cores'])})"
+    if k == "p2" and d.get("rational"):
+        return f"(DP2Q {C.opt(d['w'], qarr_lit)} {qarrs_lit(d['fs'])} {qarrs_lit(d['ps'])})"
     if k == "p2":
         return f"(DP2 {C.opt(d['w'], arr_lit)} {arrs_lit(d['fs'])} {arrs_lit(d['ps'])})"
+    raise KeyError(k)
+
+
+def qarr_lit(a):
+    a = np.asarray(a, dtype=np.float64)
+    return C.qtensor(a.shape, [float(x) for x in a.ravel().tolist()])
+
+
+def qarrs_lit(l):
+    return "[" + "; ".join(qarr_lit(a) for a in l) + "]" if len(l) else "(@nil (tensor Q))"
+
+
+def step_lit(st):
+    k = st[0]
+    if k == "view":
+        return f"(SView {st[1]} {st[2]})"
+    if k == "setw":
+        return f"(SSetW {C.opt(st[1], arr_lit)})"
+    if k == "setf":
+        return f"(SSetF {arrs_lit(st[1])})"
+    if k == "setcore":
+        return f"(SSetCore {arr_lit(st[1])})"
+    if k == "setk":
+        return f"(SSetK {C.nat(st[1])} {arr_lit(st[2])})"
     raise KeyError(k)
 
 
@@ -94,7 +120,7 @@ def dense_spec(d):
     """defining contraction of a WELL-FORMED decomposition, int64, written without any TensorLy function"""
     k = d["kind"]
     if k == "cp":
-        fs = [I64(f) for f in d["fs"]]
+        fs = [I64(f).reshape(np.shape(f)[0], -1) for f in d["fs"]]   # 1-D factors of a rank-1 CP tensor are single columns
         R = fs[0].shape[1]
         w = I64(d["w"]) if d["w"] is not None else np.ones(R, dtype=np.int64)
         out = np.zeros(tuple(f.shape[0] for f in fs), dtype=np.int64)
@@ -169,7 +195,7 @@ def vec_spec(t):
 def shape_rank_spec(d):
     k = d["kind"]
     if k == "cp":
-        return tuple(f.shape[0] for f in d["fs"]), d["fs"][0].shape[1]
+        return tuple(f.shape[0] for f in d["fs"]), (d["fs"][0].shape[1] if np.ndim(d["fs"][0]) == 2 else 1)
     if k == "tucker":
         return tuple(f.shape[0] for f in d["fs"]), tuple(f.shape[1] for f in d["fs"])
     if k in ("tt", "tr"):
@@ -237,23 +263,36 @@ def view_predicate(d, v, res, dense):
 def tl_input(d, kind):
     """fresh arrays (float64) for one route; returns (decomposition object or tuple, list of arrays to watch)"""
     import tensorly as tl
-    f = lambda a: None if a is None else np.array(a, dtype=np.float64)
+    dts = list(d.get("dtypes") or [])
+    cplx = d.get("cplx")  # (key, index or None, imaginary part): that one array is stored complex
+    halves = set(tuple(h) for h in (d.get("half") or []))  # stored arrays given as half-integers (their integer double is in d)
+
+    def f(a, key=None, idx=None):
+        if a is None:
+            if dts: dts.pop(0)
+            return None
+        dt = np.dtype(dts.pop(0)) if dts else np.dtype(np.float64)
+        if (key, idx) in halves:
+            a = np.array(a, dtype=np.float64) / 2     # dyadic entries: still exact in float32 / float64
+        if cplx is not None and cplx[0] == key and cplx[1] == idx:
+            return (np.array(a, dtype=np.float64) + 1j * np.array(cplx[2], dtype=np.float64)).astype(np.complex64 if dt == np.float32 else np.complex128)
+        return np.array(a).astype(dt)
     k = d["kind"]
     if k == "cp":
-        w, fs = f(d["w"]), [f(x) for x in d["fs"]]
+        w, fs = f(d["w"], "w"), [f(x, "fs", i) for i, x in enumerate(d["fs"])]
         tup, watch = (w, fs), [w] + fs
         mk = lambda: tl.cp_tensor.CPTensor(tup)
     elif k == "tucker":
-        core, fs = f(d["core"]), [f(x) for x in d["fs"]]
+        core, fs = f(d["core"], "core"), [f(x, "fs", i) for i, x in enumerate(d["fs"])]
         tup, watch = (core, fs), [core] + fs
         mk = lambda: tl.tucker_tensor.TuckerTensor(tup)
     elif k in ("tt", "tr", "ttm"):
-        cs = [f(x) for x in d["cores"]]
+        cs = [f(x, "cores", i) for i, x in enumerate(d["cores"])]
         tup, watch = cs, list(cs)
         cls = {"tt": tl.tt_tensor.TTTensor, "tr": tl.tr_tensor.TRTensor, "ttm": tl.tt_matrix.TTMatrix}[k]
         mk = lambda: cls(tup)
     else:
-        w, fs, ps = f(d["w"]), [f(x) for x in d["fs"]], [f(x) for x in d["ps"]]
+        w, fs, ps = f(d["w"], "w"), [f(x, "fs", i) for i, x in enumerate(d["fs"])], [f(x, "ps", i) for i, x in enumerate(d["ps"])]
         tup, watch = (w, fs, ps), [w] + fs + ps
         mk = lambda: tl.parafac2_tensor.Parafac2Tensor(tup)
     if kind == "tuple":
@@ -346,11 +385,85 @@ def views_of(d, malformed):
         return [("validate",), ("tensor",), ("slices",), ("vec",), ("norm",)] + [("slice", i) for i in range(min(n, 3))] + [("unfolded", m) for m in range(3)]
 
 
+def unhalve(d, v, res):
+    """every view is linear in each stored array: with m arrays stored halved, 2^m * view is the view of the integer decomposition"""
+    m = len(d.get("half") or [])
+    if not m or res[0] != "ok" or v[0] == "validate":
+        return res
+    k = float(2 ** m)
+    if v[0] == "slices":
+        return ("ok", [np.asarray(a) * k for a in res[1]])
+    return ("ok", np.asarray(res[1]) * k)
+
+
+def _stable(watch, before, unstable, route, v, step):
+    for a, b in zip(watch, before):
+        if a is not None and (a.shape != b.shape or a.tobytes() != b.tobytes()):
+            unstable.append((route, v, step))
+            if a.shape == b.shape:
+                np.copyto(a, b)  # restore, so that later views are judged on the original factors
+
+
+def setitem_plan(d, rng):
+    """phases of __setitem__ calls for a wrapper history: [(label, [setter...], decomposition stored afterwards)]
+    'same': arrays of the shapes they replace (the cache stays valid); 'reshaping': a stored array of another shape."""
+    k = d["kind"]
+    if k == "p2" or d.get("cplx") is not None or d.get("half") or (k == "cp" and any(np.ndim(f) != 2 for f in d["fs"])):
+        return []
+    plan = []
+    if k == "cp":
+        fs2 = [rint(rng, f.shape) for f in d["fs"]]
+        sets, d2 = [("setf", fs2)], dict(d, fs=fs2)
+        if rng.random() < 0.5:
+            R = d["fs"][0].shape[1]
+            w2 = weights(rng, "signed", R); sets.append(("setw", w2)); d2 = dict(d2, w=w2)
+        plan.append(("same", sets, d2))
+        if d.get("mask") is None and rng.random() < 0.6:
+            j = rng.randrange(len(fs2)); fs3 = list(fs2)
+            if len(fs2) >= 2 and fs2[0].shape != fs2[-1].shape and rng.random() < 0.5:
+                fs3 = [rint(rng, f.shape) for f in reversed(fs2)]       # same entries count, modes permuted
+            else:
+                fs3[j] = rint(rng, (fs2[j].shape[0] + 1, fs2[j].shape[1]))
+            plan.append(("reshaping", [("setf", fs3)], dict(d2, fs=fs3)))
+    elif k == "tucker":
+        core2 = rint(rng, d["core"].shape); fs2 = [rint(rng, f.shape) for f in d["fs"]]
+        d2 = dict(d, core=core2, fs=fs2)
+        plan.append(("same", [("setcore", core2), ("setf", fs2)], d2))
+        if rng.random() < 0.6:
+            j = rng.randrange(len(fs2)); fs3 = list(fs2); fs3[j] = rint(rng, (fs2[j].shape[0] + 1, fs2[j].shape[1]))
+            plan.append(("reshaping", [("setf", fs3)], dict(d2, fs=fs3)))
+    else:
+        cs2 = list(d["cores"]); sets = []
+        for j in rng.sample(range(len(cs2)), min(len(cs2), rng.choice([1, 2]))):
+            cs2[j] = rint(rng, cs2[j].shape); sets.append(("setk", j, cs2[j]))
+        d2 = dict(d, cores=cs2)
+        plan.append(("same", sets, d2))
+        if rng.random() < 0.6:
+            j = rng.randrange(len(cs2)); sh = list(cs2[j].shape); sh[1] += 1
+            cs3 = list(cs2); cs3[j] = rint(rng, tuple(sh))
+            plan.append(("reshaping", [("setk", j, cs3[j])], dict(d2, cores=cs3)))
+    return plan
+
+
+def apply_setter(x, st):
+    f = lambda a: None if a is None else np.array(a, dtype=np.float64)
+    if st[0] == "setw":
+        new = f(st[1]); x[0] = new; return [new]
+    if st[0] == "setcore":
+        new = f(st[1]); x[0] = new; return [new]
+    if st[0] == "setf":
+        new = [f(a) for a in st[1]]; x[1] = new; return new
+    if st[0] == "setk":
+        new = f(st[2]); x[st[1]] = new; return [new]
+    raise KeyError(st[0])
+
+
 def run_routes(d, rng, malformed=False, backends=("core", "einsum")):
-    """run every view of d along a shuffled multi-step sequence for each (tenalg backend, tuple|wrapper) route.
-    Returns list of (route, view, result) and a list of stability failures."""
+    """Tuple routes: every view of d along a shuffled multi-step sequence per tenalg backend -> obs [(route, view, result, d, phase)].
+    Wrapper routes: one object HISTORY per backend (construction, views, __setitem__ phases, views) -> histories
+    [(backend, constructed, steps)] with steps ('view', view, result) | setter tuples; their view observations are in obs too."""
     from tensorly import tenalg
-    obs, unstable = [], []
+    obs, unstable, histories = [], [], []
     base0 = views_of(d, malformed)
     for be in backends:
         base = base0
@@ -361,39 +474,35 @@ def run_routes(d, rng, malformed=False, backends=("core", "einsum")):
         tenalg.set_backend(be)
         try:
             for kind in ("tuple", "wrapper"):
-                if kind == "wrapper" and d.get("tr"):
+                if kind == "wrapper" and (d.get("tr") or d.get("no_wrapper") or d.get("rational")):
                     continue  # transposed storage is not a valid wrapper object
-                if kind == "wrapper" and d.get("no_wrapper"):
-                    continue
                 x, watch, err = tl_input(d, kind)
                 before = [None if a is None else a.copy() for a in watch]
                 if err == ("crash", "timeout"):
                     SKIPPED["timeouts"] += 1
                     continue
+                route = (be, kind)
                 if err is not None:  # the wrapper constructor rejected the factor set
-                    obs.append(((be, kind), ("validate",), err))
+                    obs.append((route, ("validate",), err, d, "new"))
+                    histories.append((be, False, []))
                     continue
                 seq = list(base)
                 if not malformed:
                     rng.shuffle(seq)
                     # multi-step: dense reconstruction first, some views repeated, dense reconstruction again at the end
                     seq = [("tensor",)] + seq + [rng.choice(base) for _ in range(2)] + [("tensor",)]
+                steps = []
                 for step, v in enumerate(seq):
-                    if kind == "tuple" and d["kind"] == "cp" and d.get("onedim") and v[0] != "validate":
-                        continue
                     if kind == "tuple" and v[0] == "norm" and d["kind"] != "cp":
                         continue  # only the wrapper objects have a norm outside CP
                     res = C.call_impl(call_view(d, x, v, kind, use_method=(step % 2 == 0)), timeout=30)
                     if res == ("crash", "timeout"):  # loaded machine: never a verdict, only a skipped observation
                         SKIPPED["timeouts"] += 1
                         continue
-                    obs.append(((be, kind), v, res))
-                    for a, b in zip(watch, before):
-                        if a is not None and (a.shape != b.shape or a.tobytes() != b.tobytes()):
-                            unstable.append(((be, kind), v, step))
-                            if a.shape == b.shape:
-                                np.copyto(a, b)  # restore, so that later views are judged on the original factors
-
+                    res = unhalve(d, v, res)
+                    obs.append((route, v, res, d, "new"))
+                    steps.append(("view", v, res))
+                    _stable(watch, before, unstable, route, v, step)
                 if kind == "wrapper" and not malformed:
                     # the wrapper must still hold the very arrays it was given
                     if d["kind"] in ("tt", "tr", "ttm"):
@@ -405,10 +514,33 @@ def run_routes(d, rng, malformed=False, backends=("core", "einsum")):
                     else:
                         held, exp = list(x.factors) + list(x.projections), before[1:]
                     if len(held) != len(exp) or any(np.asarray(h).shape != e.shape or np.asarray(h).tobytes() != e.tobytes() for h, e in zip(held, exp)):
-                        unstable.append(((be, kind), ("stored-factors",), -1))
+                        unstable.append((route, ("stored-factors",), -1))
+                    # __setitem__ phases: the views must follow the stored contents
+                    for label, sets, dcur in setitem_plan(d, rng):
+                        ok = True
+                        for st in sets:
+                            r = C.call_impl(lambda: apply_setter(x, st), timeout=30)
+                            if r[0] != "ok":
+                                ok = False; obs.append((route, ("setitem",), r, dcur, label)); break
+                            steps.append(st)
+                        if not ok:
+                            break
+                        vs2 = [("validate",), ("tensor",), ("vec",), ("unfolded", 0)] + ([("norm",)] if label == "same" and ("norm",) in base else [])
+                        if label == "same":
+                            vs2 += [rng.choice(base)]
+                        rng.shuffle(vs2)
+                        for step, v in enumerate(vs2):
+                            res = C.call_impl(call_view(dcur, x, v, kind, use_method=(step % 2 == 0)), timeout=30)
+                            if res == ("crash", "timeout"):
+                                SKIPPED["timeouts"] += 1
+                                continue
+                            obs.append((route, v, res, dcur, label))
+                            steps.append(("view", v, res))
+                if kind == "wrapper":
+                    histories.append((be, True, steps))
         finally:
             tenalg.set_backend("core")
-    return obs, unstable
+    return obs, unstable, histories
 
 
 # ----------------------------------------------------------------------------- generators
@@ -522,6 +654,70 @@ def gen_valid(tier, rng):
             yield dict(kind="tucker", core=rint(rng, rk, -2, 2), fs=[rint(rng, (n, r), -2, 2) for n, r in zip(s, rk)])
 
 
+def base_decomps(rng):
+    """one small decomposition per family (for the dtype / complex variants)"""
+    o = rng.randint(2, 3); sh = [rng.randint(1, 3) for _ in range(o)]; R = rng.randint(1, 3)
+    yield dict(kind="cp", w=weights(rng, rng.choice(["none", "signed"]), R), fs=[rint(rng, (n, R)) for n in sh])
+    rk = [rng.randint(1, 3) for _ in sh]
+    yield dict(kind="tucker", core=rint(rng, rk), fs=[rint(rng, (n, r)) for n, r in zip(sh, rk)])
+    rk = [1] + [rng.randint(1, 3) for _ in range(o - 1)] + [1]
+    yield dict(kind="tt", cores=[rint(rng, (rk[i], n, rk[i + 1])) for i, n in enumerate(sh)])
+    r0 = rng.randint(1, 3); rk = [r0] + [rng.randint(1, 3) for _ in range(o - 1)] + [r0]
+    yield dict(kind="tr", cores=[rint(rng, (rk[i], n, rk[i + 1])) for i, n in enumerate(sh)])
+    ins = [rng.randint(1, 2) for _ in range(2)]; outs = [rng.randint(1, 3) for _ in range(2)]; r1 = rng.randint(1, 3)
+    yield dict(kind="ttm", cores=[rint(rng, (1, ins[0], outs[0], r1)), rint(rng, (r1, ins[1], outs[1], 1))])
+    I = rng.randint(2, 3); R = rng.randint(1, 2); K = rng.randint(1, 3); Js = [R + (i % 2) for i in range(I)]
+    yield dict(kind="p2", w=weights(rng, rng.choice(["none", "signed"]), R), fs=[rint(rng, (I, R)), rint(rng, (R, R)), rint(rng, (K, R))],
+               ps=[signed_perm_cols(rng, J, R) for J in Js])
+
+
+def stored_arrays(d):
+    """(key, index) of the arrays a decomposition stores, in the order tl_input builds them"""
+    k = d["kind"]
+    if k == "cp":
+        return [("w", None)] + [("fs", i) for i in range(len(d["fs"]))]
+    if k == "tucker":
+        return [("core", None)] + [("fs", i) for i in range(len(d["fs"]))]
+    if k == "p2":
+        return [("w", None)] + [("fs", i) for i in range(3)] + [("ps", i) for i in range(len(d["ps"]))]
+    return [("cores", i) for i in range(len(d["cores"]))]
+
+
+def gen_dtype_variants(tier, rng):
+    """mixed-dtype factor sets: an int64 0/1 indicator factor next to float32 / float64 arrays; one complex array among real ones"""
+    for _ in range(2 if tier == "quick" else 10):
+        for d in base_decomps(rng):
+            slots = stored_arrays(d)
+            # (a) real dtypes, at least two different ones, one integer indicator array
+            d1 = dict(d); dts = [rng.choice(["float32", "float64"]) for _ in slots]
+            cand = [j for j, (key, i) in enumerate(slots) if key in ("fs", "cores", "core")]
+            j = rng.choice(cand); key, i = slots[j]; dts[j] = "int64"
+            if i is None:
+                d1[key] = rint(rng, d[key].shape, 0, 1)
+            else:
+                l = list(d[key]); l[i] = rint(rng, l[i].shape, 0, 1); d1[key] = l
+            if d["kind"] == "p2":   # the projections stay exact in any dtype; give one of them an integer dtype as well
+                dts[-1] = "int64"
+            other = [x for x in range(len(slots)) if x != j and d1.get(slots[x][0]) is not None]
+            if other:
+                dts[rng.choice(other)] = "float32"
+            d1["dtypes"] = dts
+            yield d1
+            # the same with half-integer entries in every floating-point array except the projections (an integer work array
+            # anywhere on the way would truncate them); the observed views are scaled back by 2^m before they are compared
+            d1h = dict(d1, no_wrapper=False, half=[list(sl) for sl, dt in zip(slots, dts) if dt != "int64" and sl[0] != "ps" and d1.get(sl[0]) is not None])
+            yield d1h
+            # (b) one complex array (complex64 next to float32 data, complex128 otherwise)
+            cand = [sl for sl in slots if sl[0] != "ps" and not (sl[0] == "w" and d.get("w") is None)]
+            for key, i in [cand[0]] + ([rng.choice(cand[1:])] if len(cand) > 1 else []):   # the first stored array (weights / core / first core) and one other
+                d2 = dict(d)
+                base = d[key] if i is None else d[key][i]
+                d2["cplx"] = (key, i, rint(rng, base.shape))
+                d2["dtypes"] = [rng.choice(["float32", "float64"]) for _ in slots] if rng.random() < 0.5 else None
+                d2["views"] = [v for v in views_of(d, False) if v[0] != "norm"]
+                yield d2
+
+
 def gen_malformed(tier, rng):
     """factor sets that are structurally invalid (plus a few degenerate-but-valid neighbours)"""
     reps = 3 if tier == "quick" else 12
@@ -542,7 +738,17 @@ def gen_malformed(tier, rng):
         bad3 = list(fs); bad3[j] = rint(rng, (s[j], R, 1))
         yield dict(kind="cp", w=None, fs=bad3, why="3-D factor", views=V)
         bad1 = list(fs); bad1[j] = rint(rng, (s[j],))
-        yield dict(kind="cp", w=None, fs=bad1, why="1-D factor next to rank-R factors" if R > 1 else "1-D factor (rank 1: accepted)", views=V, onedim=True)
+        V1D = [("validate",), ("tensor",), ("vec",), ("unfolded", 0), ("unfolded", 1), ("norm",)]
+        yield dict(kind="cp", w=None, fs=bad1, why="1-D factor next to rank-R factors" if R > 1 else "1-D factor (rank 1: accepted)", views=V1D, onedim=True)
+        vecs = [rint(rng, (n,)) for n in s]
+        yield dict(kind="cp", w=rng.choice([None, rint(rng, (1,))]), fs=vecs, why="all factors 1-D (rank 1: accepted)", views=V1D, onedim=True)
+        # all factors 1-D with pairwise distinct sizes >= 2: no accidental shape alignment, every un-masked route raises (this class
+        # goes through the Coq correspondence with all its views; the other 1-D combinations only with the validator)
+        vecs = [rint(rng, (n,)) for n in rng.sample([2, 3, 4], rng.randint(2, 3))]
+        yield dict(kind="cp", w=rng.choice([None, rint(rng, (1,))]), fs=vecs, why="all factors 1-D, distinct sizes (rank 1: accepted)", views=V1D, onedim=True, onedim_exact=True)
+        yield dict(kind="cp", w=None, fs=vecs, mask=rint(rng, tuple(len(v_) for v_ in vecs), 0, 1, nonzero=False), why="all factors 1-D, masked", views=[("tensor",), ("validate",)], onedim=True)
+        mixed1 = [rint(rng, (s[0], 1))] + [rint(rng, (n,)) for n in s[1:]]
+        yield dict(kind="cp", w=None, fs=mixed1, why="first factor a column, the others 1-D (rank 1: accepted)", views=V1D, onedim=True)
         # --- Tucker
         rk = [rng.randint(1, 3) for _ in s]
         core = rint(rng, rk); tf = [rint(rng, (n, r)) for n, r in zip(s, rk)]
@@ -603,6 +809,18 @@ def gen_malformed(tier, rng):
         yield dict(kind="p2", w=None, fs=[A, B, Cm], ps=bad, why="non-orthonormal projection (zero column: P^T P - I has a -1)", views=P2V)
         bad = [p.copy() for p in ps]; bad[i] = 2 * bad[i]
         yield dict(kind="p2", w=None, fs=[A, B, Cm], ps=bad, why="non-orthonormal projection (scaled)", views=P2V)
+        half = [p.astype(np.float64) for p in ps]; half[i][:, rng.randrange(R)] *= 0.5
+        yield dict(kind="p2", rational=True, w=None, fs=[A, B, Cm], ps=half, why="sub-orthonormal projection (a column shrunk to length 1/2: no entry of P^T P - I is positive)", views=V)
+        half = [p.astype(np.float64) for p in ps]; half[i] = half[i] * 0.5
+        yield dict(kind="p2", rational=True, w=None, fs=[A, B, Cm], ps=half, why="sub-orthonormal projection (whole projection scaled by 1/2)", views=V)
+        P1 = [signed_perm_cols(rng, rng.randint(1, 3), 1).astype(np.float64) for _ in range(I)]; P1[i] = P1[i] * rng.choice([0.5, 0.25, 0.0])
+        yield dict(kind="p2", rational=True, w=None, fs=[rint(rng, (I, 1)), rint(rng, (1, 1)), rint(rng, (K, 1))], ps=P1,
+                   why="rank-1 projection scaled below unit length", views=V)
+        okq = [p.astype(np.float64) for p in ps]
+        yield dict(kind="p2", rational=True, w=None, fs=[A, B, Cm], ps=okq, why="(control) orthonormal projections through the rational model", views=V)
+        yield dict(kind="p2", w=None, fs=[A, rint(rng, (R + 1, R)), Cm], ps=ps, why="B with R+1 rows (accepted by the validator, no reconstruction exists)", views=P2V + [("unfolded", 0)], late_reject=True)
+        if R >= 2:
+            yield dict(kind="p2", w=rint(rng, (R,)), fs=[A, rint(rng, (R - 1, R)), Cm], ps=ps, why="B with R-1 rows (accepted by the validator, no reconstruction exists)", views=P2V, late_reject=True)
         yield dict(kind="p2", w=None, fs=[A, B, Cm], ps=ps + [ps[0]], why="one projection too many", views=P2V)
         if I >= 2:
             yield dict(kind="p2", w=None, fs=[A, B, Cm], ps=ps[:-1], why="one projection too few", views=P2V)
@@ -645,7 +863,8 @@ def well_formed_py(d):
             R = fs[0].shape[1]
             if len(ps) != fs[0].shape[0] or fs[1].shape[1] != R or fs[2].shape[1] != R:
                 return False
-            if any(p.ndim != 2 or p.shape[1] != R or not np.array_equal(I64(p).T @ I64(p), np.eye(R, dtype=np.int64)) for p in ps):
+            F64 = lambda a: np.asarray(a, dtype=np.float64)
+            if any(p.ndim != 2 or p.shape[1] != R or not np.array_equal(F64(p).T @ F64(p), np.eye(R)) for p in ps):
                 return False
             return d["w"] is None or d["w"].shape[0] == R
     except Exception:
@@ -654,9 +873,16 @@ def well_formed_py(d):
 
 
 # ----------------------------------------------------------------------------- known findings
-# none at present: the two order-1 findings of round 1 (cp_to_unfolded IndexError, mask ignored) were repaired in /repo
-# (b1a796c, 5ac4e66); their witnesses live on in corpus/C03/ and as Examples in Props/C03.v.
-CLASSIFIERS = {}
+# the two order-1 findings of round 1 (cp_to_unfolded IndexError, mask ignored) were repaired in /repo (b1a796c, 5ac4e66); their
+# witnesses live on in corpus/C03/ and as Examples in Props/C03.v.  Round 3: (1) a wrapper's cached .shape/.rank go stale when
+# __setitem__ stores an array of another shape (CPTensor.to_tensor then folds with the stale shape) - kept as a known finding (the
+# repair would reject the intermediate state of a legitimate two-step replacement); (2) 1-D CP factors were accepted by the
+# validator but no un-masked reconstruction worked - repaired in /repo by 148e558.
+def clf_setitem_stale(f):
+    return f["inputs"].get("setitem") == "reshaping" and f["inputs"].get("input_kind") == "wrapper"
+
+
+CLASSIFIERS = {"wrapper_setitem_stale_cache": clf_setitem_stale}
 
 
 def describe(d):
@@ -674,7 +900,18 @@ def describe(d):
         out["masked"] = True
     if d.get("why"):
         out["why"] = d["why"]
+    if d.get("dtypes"):
+        out["dtypes"] = list(d["dtypes"])
+    if d.get("half"):
+        out["half_integer_arrays"] = [list(h) for h in d["half"]]
+    if d.get("cplx") is not None:
+        out["complex_array"] = [d["cplx"][0], d["cplx"][1]]
     return out
+
+
+def _num(x):
+    x = float(x)
+    return int(x) if x == int(x) else x
 
 
 def payload_arrays(d):
@@ -682,26 +919,36 @@ def payload_arrays(d):
     p = {"kind": d["kind"]}
     for key in ("w", "core", "mask"):
         if d.get(key) is not None:
-            p[key] = {"shape": list(d[key].shape), "values": [int(x) for x in d[key].ravel()]}
+            p[key] = {"shape": list(d[key].shape), "values": [_num(x) for x in d[key].ravel()]}
     for key in ("fs", "cores", "ps"):
         if d.get(key) is not None:
-            p[key] = [{"shape": list(a.shape), "values": [int(x) for x in a.ravel()]} for a in d[key]]
-    for key in ("skip", "tr", "why"):
+            p[key] = [{"shape": list(a.shape), "values": [_num(x) for x in a.ravel()]} for a in d[key]]
+    if d.get("cplx") is not None:
+        p["cplx"] = [d["cplx"][0], d["cplx"][1], {"shape": list(d["cplx"][2].shape), "values": [_num(x) for x in d["cplx"][2].ravel()]}]
+    if d.get("views") is not None:
+        p["views"] = [list(v) for v in d["views"]]
+    for key in ("skip", "tr", "why", "onedim", "onedim_exact", "late_reject", "rational", "dtypes", "no_wrapper", "half"):
         if d.get(key) is not None:
             p[key] = d[key]
     return p
 
 
 def from_payload(p):
-    arr = lambda a: np.array(a["values"], dtype=np.int64).reshape(a["shape"])
+    def arr(a):
+        v = np.array(a["values"])
+        return (v.astype(np.int64) if np.all(v == np.round(v)) else v.astype(np.float64)).reshape(a["shape"])
     d = {"kind": p["kind"], "w": None}
+    if p.get("cplx") is not None:
+        d["cplx"] = (p["cplx"][0], p["cplx"][1], arr(p["cplx"][2]))
+    if p.get("views") is not None:
+        d["views"] = [tuple(v) for v in p["views"]]
     for key in ("w", "core", "mask"):
         if p.get(key) is not None:
             d[key] = arr(p[key])
     for key in ("fs", "cores", "ps"):
         if p.get(key) is not None:
             d[key] = [arr(a) for a in p[key]]
-    for key in ("skip", "tr", "why"):
+    for key in ("skip", "tr", "why", "onedim", "onedim_exact", "late_reject", "rational", "dtypes", "no_wrapper", "half"):
         if p.get(key) is not None:
             d[key] = p[key]
     return d
@@ -727,43 +974,126 @@ def vname(v):
     return v[0] + ("(%d)" % v[1] if len(v) > 1 else "")
 
 
+SETITEM_EP = {"cp": "tensorly.cp_tensor.CPTensor.__setitem__", "tucker": "tensorly.tucker_tensor.TuckerTensor.__setitem__",
+              "tt": "tensorly.tt_tensor.TTTensor.__setitem__", "tr": "tensorly.tr_tensor.TRTensor.__setitem__",
+              "ttm": "tensorly.tt_matrix.TTMatrix.__setitem__"}
+
+
+def ein_view(d, be, malformed, vl):
+    # the einsum TT-matrix route has its own model (Model/Factorized.v ttm_to_tensor_einsum)
+    return f"(VEin {vl})" if d["kind"] == "ttm" and be == "einsum" and not malformed else vl
+
+
 def check_decomp(chk, d, rng, malformed, record=True):
-    """run all routes; evaluate predicates; return (case views literal list, n_calls, list of predicate messages)"""
-    obs, unstable = run_routes(d, rng, malformed=malformed)
+    """run all routes; evaluate predicates; return (tuple-route (view, out) literals, wrapper histories as step literals, n_calls, messages)"""
+    obs, unstable, histories = run_routes(d, rng, malformed=malformed)
     msgs = []
-    wf = well_formed_py(d)
-    dense = None
-    if wf and not d.get("onedim"):
-        dense = dense_spec(d)
     pairs, seen = [], set()
     desc = describe(d)
-    for route, v, res in obs:
-        vl = view_lit(v)
-        if d["kind"] == "ttm" and route[0] == "einsum" and not malformed:
-            vl = f"(VEin {vl})"   # the einsum TT-matrix route has its own model (Model/Factorized.v ttm_to_tensor_einsum)
-        lit = (vl, out_lit(v, res))
-        if lit not in seen:
-            seen.add(lit); pairs.append(lit)
-        msg = None
-        if wf:
-            if dense is not None:
-                msg = view_predicate(d, v, res, dense)
-            elif v[0] == "validate" and res[0] != "ok":
-                msg = f"well-formed factor set rejected: {res[1]}"
-        else:
-            if v[0] == "validate" and res[0] == "ok":
-                msg = f"structurally invalid factor set ({d.get('why', '?')}) accepted with (shape, rank) = {res[1]}"
+    spec_cache = {}
+
+    def judge(dcur):
+        key = id(dcur)
+        if key not in spec_cache:
+            wf = well_formed_py(dcur)
+            spec_cache[key] = (wf, dense_spec(dcur) if wf and not dcur.get("late_reject") else None)
+        return spec_cache[key]
+
+    def in_corr(dcur, v):
+        return True
+
+    for route, v, res, dcur, phase in obs:
+        if route[1] == "tuple" and in_corr(dcur, v):
+            lit = (ein_view(d, route[0], malformed, view_lit(v)), out_lit(v, res))
+            if lit not in seen:
+                seen.add(lit); pairs.append(lit)
+        wf, dense = judge(dcur)
+        msg, ep, extra = None, epname(dcur, v), {}
+        if v[0] == "setitem":
+            msg = f"__setitem__ raised: {res[1]}"
+        elif wf and dcur.get("late_reject"):
+            # accepted by the validator, but no reconstruction may come out silently
+            if v[0] == "validate" and res[0] != "ok":
+                msg = f"factor set rejected by the validator although it only looks at column counts: {res[1]}"
+            elif v[0] != "validate" and res[0] == "ok":
+                msg = f"a reconstruction was returned for a factor set that has none ({dcur.get('why')})"
+        elif wf:
+            msg = view_predicate(dcur, v, res, dense)
+        elif v[0] == "validate" and res[0] == "ok":
+            msg = f"structurally invalid factor set ({dcur.get('why', '?')}) accepted with (shape, rank) = {res[1]}"
         if msg:
+            if phase == "reshaping":
+                ep = SETITEM_EP.get(d["kind"], ep); extra = {"setitem": "reshaping"}
             msgs.append((route, v, msg))
             if record:
-                chk.finding(epname(d, v), dict(desc, view=vname(v), backend=route[0], input_kind=route[1], data=payload_arrays(d)), msg,
+                chk.finding(ep, dict(describe(dcur), view=vname(v), backend=route[0], input_kind=route[1], phase=phase, data=payload_arrays(d), **extra), msg,
                             "C03_view_agrees_with_defining_contraction" if wf else "C03_invalid_rejected")
     for route, v, step in unstable:
         msg = f"taking view {vname(v)} (step {step}) changed the stored factors"
         msgs.append((route, v, msg))
         if record:
             chk.finding(epname(d, v), dict(desc, view=vname(v), backend=route[0], input_kind=route[1], data=payload_arrays(d)), msg, "C03_views_stable")
-    return pairs, len(obs), msgs
+    hist_lits = []
+    for be, constructed, steps in histories:
+        lits, seen_phase = [], set()
+        for st in steps:
+            if st[0] == "view" and not in_corr(d, st[1]):
+                continue
+            if st[0] == "view":
+                l = step_lit(("view", ein_view(d, be, malformed, view_lit(st[1])), out_lit(st[1], st[2])))
+                if l not in seen_phase:   # the model object is pure between two __setitem__ calls: identical observations are redundant
+                    seen_phase.add(l); lits.append(l)
+            else:
+                seen_phase = set(); lits.append(step_lit(st))
+        hist_lits.append((constructed, lits))
+    return pairs, hist_lits, len(obs), msgs
+
+
+def split_complex(v, res):
+    """(Re, Im) results of one observation"""
+    st, val = res
+    if st != "ok" or v[0] == "validate":
+        return res, res
+    if v[0] == "slices":
+        return ("ok", [np.real(a).copy() for a in val]), ("ok", [np.imag(a).copy() for a in val])
+    return ("ok", np.real(val).copy()), ("ok", np.imag(val).copy())
+
+
+def check_complex(chk, d, rng, record=True):
+    """d['cplx'] = (key, index, imaginary part): ONE stored array is complex.  Every reconstruction is linear in each single stored
+    array, so the real / imaginary part of every view must be the view of the decomposition with that array replaced by its
+    real / imaginary part: two exact integer cases for the model, two evaluations of the predicates."""
+    key, idx, imag = d["cplx"]
+    d_re = {k: v for k, v in d.items() if k != "cplx"}
+    d_im = dict(d_re)
+    if idx is None:
+        d_im[key] = imag
+    else:
+        l = list(d_re[key]); l[idx] = imag; d_im[key] = l
+    obs, unstable, _ = run_routes(dict(d, no_wrapper=True), rng, malformed=False)
+    out = []
+    msgs = []
+    dense = {"re": dense_spec(d_re), "im": dense_spec(d_im)}
+    acc = {"re": ([], set()), "im": ([], set())}
+    for route, v, res, _, _ in obs:
+        parts = dict(zip(("re", "im"), split_complex(v, res)))
+        for part, dd in (("re", d_re), ("im", d_im)):
+            lit = (ein_view(d, route[0], False, view_lit(v)), out_lit(v, parts[part]))
+            if lit not in acc[part][1]:
+                acc[part][1].add(lit); acc[part][0].append(lit)
+            msg = view_predicate(dd, v, parts[part], dense[part])
+            if msg:
+                msg = f"[{'real' if part == 're' else 'imaginary'} part of a view of a decomposition with one complex array] " + msg
+                msgs.append((route, v, msg))
+                if record:
+                    chk.finding(epname(d, v), dict(describe(d), view=vname(v), backend=route[0], input_kind=route[1], data=payload_arrays(d)), msg,
+                                "C03_view_agrees_with_defining_contraction")
+    for route, v, step in unstable:
+        msg = f"taking view {vname(v)} (step {step}) changed the stored factors"
+        msgs.append((route, v, msg))
+        if record:
+            chk.finding(epname(d, v), dict(describe(d), view=vname(v), backend=route[0], input_kind=route[1], data=payload_arrays(d)), msg, "C03_views_stable")
+    return (d_re, acc["re"][0]), (d_im, acc["im"][0]), len(obs), msgs
 
 
 def run_shards_with_retry(cases, shard):
@@ -776,7 +1106,7 @@ def run_shards_with_retry(cases, shard):
         fn = b.get("shard")
         if b.get("rc") not in (-9, 137, 124, -15) or (b.get("stderr") or "").strip() or not fn or not os.path.exists(fn):
             still.append(b); continue
-        n = len(re.findall(r"^\(\d+%nat, ", open(fn).read(), flags=re.M))
+        n = len(re.findall(r"^\((?:CViews|CObj) \d+%nat ", open(fn).read(), flags=re.M))
         try:
             p = subprocess.run(["timeout", "1200", "coqc", "-w", "none", "-R", os.path.join(C.COQ, "theories"), "TLV", fn],
                                capture_output=True, text=True, cwd=os.path.dirname(fn))
@@ -797,28 +1127,44 @@ def run(chk):
     C.reset_backends()
     tier = chk.tier
     cases, meta = [], []
-    stream = [(d, False) for d in corpus_cases()] + [(d, False) for d in gen_valid(tier, rng)] + [(d, True) for d in gen_malformed(tier, rng)]
-    for cid, (d, malformed) in enumerate(stream):
+    stream = [(d, False) for d in corpus_cases()] + [(d, False) for d in gen_valid(tier, rng)] + [(d, False) for d in gen_dtype_variants(tier, rng)] + [(d, True) for d in gen_malformed(tier, rng)]
+    for d, malformed in stream:
         if d.get("malformed") is not None:
             malformed = d["malformed"]
-        pairs, ncalls, msgs = check_decomp(chk, d, rng, malformed)
-        cases.append(f"({cid}%nat, {decomp_lit(d)}, [" + "; ".join(f"({v}, {o})" for v, o in pairs) + "])")
+        cid = len(meta)
+        if d.get("cplx") is not None:
+            (d_re, p_re), (d_im, p_im), ncalls, msgs = check_complex(chk, d, rng)
+            cases.append(f"(CViews {cid}%nat {decomp_lit(d_re)} [" + "; ".join(f"({v}, {o})" for v, o in p_re) + "])")
+            meta.append((describe(d), d))
+            cases.append(f"(CViews {cid + 1}%nat {decomp_lit(d_im)} [" + "; ".join(f"({v}, {o})" for v, o in p_im) + "])")
+            pairs = p_re
+            chk.hist("dtype", "one complex array")
+        else:
+            pairs, hists, ncalls, msgs = check_decomp(chk, d, rng, malformed)
+            dl = decomp_lit(d)
+            cases.append(f"(CViews {cid}%nat {dl} [" + "; ".join(f"({v}, {o})" for v, o in pairs) + "])")
+            for constructed, lits in hists:
+                cases.append(f"(CObj {cid}%nat {dl} {C.boolc(constructed)} [" + "; ".join(lits) + "])")
+                chk.hist("wrapper_histories", "constructed" if constructed else "constructor rejected")
+            if d.get("dtypes"):
+                chk.hist("dtype", "mixed real dtypes")
         desc = describe(d)
         meta.append((desc, d))
         arrs = d["fs"] if d["kind"] in ("cp", "tucker", "p2") else d["cores"]
         nontrivial = any(np.size(a) > 1 for a in arrs)
         key = (d["kind"], tuple(map(tuple, desc["factor_shapes"])), d.get("wk"), d.get("skip"), bool(d.get("tr")), d.get("mask") is not None, d.get("why"),
-               tuple(map(tuple, desc.get("projection_shapes", []))))
+               tuple(map(tuple, desc.get("projection_shapes", []))), tuple(d.get("dtypes") or ()), d.get("cplx") is not None and tuple(d["cplx"][:2]))
         chk.count(key=key, nontrivial=nontrivial, n=ncalls)
         chk.hist("family", d["kind"] + ("/malformed" if malformed else "")); chk.hist("order", desc["order"])
         if d["kind"] in ("cp", "p2"):
             chk.hist("weights", d.get("wk", "given"))
-        if cid % 97 == 0:
+        if len(meta) % 97 == 0:
             chk.sample({"decomposition": desc, "observed_views": [f"{v} -> {o[:120]}" for v, o in pairs[:4]]}, maxn=6)
-    failing, n_eval, broken = run_shards_with_retry(cases, shard=60 if tier == "quick" else 100)
+    failing, n_eval, broken = run_shards_with_retry(cases, shard=120 if tier == "quick" else 100)
     chk.checker_cmds.append("coqc (vm_compute) on generated build/cases/C03/*.v: Corr.C03.failing")
     chk.cov["traces_validated_against_impl"] = n_eval
-    chk.cov["decompositions"] = len(cases)
+    chk.cov["decompositions"] = len(meta)
+    chk.cov["coq_cases"] = len(cases)
     chk.cov["exhaustive"] = False
     chk.cov["skipped_timeouts"] = SKIPPED["timeouts"]
     chk.cov["rule"] = ("one case = one decomposition (CP / Tucker / TT / TR / TT-matrix / PARAFAC2; integer entries in [-3,3]) observed through every view "
@@ -877,8 +1223,16 @@ def replay(payload):
     inp = payload["inputs"]
     d = from_payload(inp["data"])
     C.reset_backends()
-    malformed = not well_formed_py(d)
-    _, _, msgs = check_decomp(None, d, random.Random(0), malformed, record=False)
+    malformed = bool(d.get("onedim") or d.get("late_reject")) or not well_formed_py(d)
+    msgs = []
+    for attempt in range(6):   # the __setitem__ phases of a wrapper history are drawn at random: try a few
+        rng = random.Random(attempt)
+        if d.get("cplx") is not None:
+            msgs = check_complex(None, d, rng, record=False)[3]
+        else:
+            msgs = check_decomp(None, d, rng, malformed, record=False)[3]
+        if msgs or inp.get("phase") in (None, "new"):
+            break
     want = inp.get("view")
     hit = [m for m in msgs if want is None or vname(m[1]) == want] or msgs
     for route, v, msg in hit[:5]:
